@@ -8,7 +8,7 @@
      LRetGet t r     r must be what the view holds for the key asked for
      LScanNext t kv  kv must be the next live pair of the view after the cursor
    together with the bracketing by invocation (LInvW / LInvR) and response (LWRet / LRetGet /
-   LRetScan).  Every other label is a stutter.  Hence a trace accepted by this machine is
+   LRetScan; LWRetF is the response of a write that failed: it must not have taken effect).  Every other label is a stutter.  Hence a trace accepted by this machine is
    linearizable by construction: every operation takes effect at a single instant between its
    invocation and its response (writes at their LWPublish, reads at their LSnap), and what reads
    return is what the sequential store holds at that instant. *)
@@ -69,6 +69,7 @@ Definition sstep (sp : sstate) (l : label) : option sstate :=
       | _ => None
       end
   | LWRet t => match sget sp t with SWDone => Some (sset sp t SIdle) | _ => None end
+  | LWRetF t => match sget sp t with SWPending _ => Some (sset sp t SIdle) | _ => None end   (* a failed write: no effect *)
   | LInvR t q => match sget sp t with SIdle => Some (sset sp t (SRPending q)) | _ => None end
   | LSnap t _ => match sget sp t with SRPending q => Some (sset sp t (SRView q (s_db sp) None)) | _ => None end
   | LRetGet t r =>
